@@ -157,8 +157,21 @@ def check_one(game, bp, svs, nk, ov, ctx):
     notes = NOTES[nk]
     site = dict(game=game)
 
+    second_use = ov is None and nk == "hits" and len(bp) >= 2 and len(svs) <= 1
+
     def mk():
-        return charts.make_map(game, notes, [(float(t), float(b)) for t, b in bp], [(float(t), m) for t, m in svs] if game != "bms" else ())
+        m = charts.make_map(game, notes, [(float(t), float(b)) for t, b in bp], [(float(t), m) for t, m in svs] if game != "bms" else ())
+        if second_use:
+            # second use of the same chart object: analyse it once with the bpm values rotated, then put the real values in place
+            real = m.bpms.bpm.tolist()
+            m.bpms.bpm = real[1:] + real[:1]
+            try:
+                dominant_bpm(m)
+                scroll_speed(m)
+            except Exception:
+                pass
+            m.bpms.bpm = real
+        return m
 
     heads = [n[0] for n in notes]
     tails = [n[0] + (n[2] or 0.0) for n in notes]
